@@ -44,8 +44,16 @@ def body_html(blocks) -> str:
         elif t == "ul":
             out.append("<ul>" + "".join(f"<li>{body_html(item)}</li>" for item in b[1]) + "</ul>")
         elif t == "tbl":
-            out.append("<table>" + "".join("<tr>" + "".join(f"<td>{body_html(cell)}</td>" for cell in row) + "</tr>"
-                                           for row in b[1]) + "</table>")
+            rows = b[1]
+            ncols = max(len(r) for r in rows)
+            if len(rows) % 2 == 0:
+                # HTML5-style table: unclosed <col> in a colgroup, header cells, thead / tbody sections
+                head = "<tr>" + "".join(f"<th>{body_html(cell)}</th>" for cell in rows[0]) + "</tr>"
+                rest = "".join("<tr>" + "".join(f"<td>{body_html(cell)}</td>" for cell in row) + "</tr>" for row in rows[1:])
+                out.append("<table><colgroup>" + "<col>" * ncols + f"</colgroup><thead>{head}</thead><tbody>{rest}</tbody></table>")
+            else:
+                out.append("<table>" + "".join("<tr>" + "".join(f"<td>{body_html(cell)}</td>" for cell in row) + "</tr>"
+                                               for row in rows) + "</table>")
         else:
             raise ValueError(t)
     return "\n".join(out)
